@@ -70,9 +70,19 @@ Print Assumptions c04_ack_after_newterm_old_refuted.
 Theorem c04_snapshot_old_refuted :
   exists l sid t c, let n := state_after cfg_old init l in
     n_status n = Fenced /\ t < n_term n /\ n_wal n <> [] /\
-    n_wal (fst (step cfg_old n (SnapshotInstall sid t c))) = [].
+    n_wal (fst (step cfg_old n (SnapshotInstall sid t c 0))) = [].
 Proof. exact snapshot_old_refuted. Qed.
 Print Assumptions c04_snapshot_old_refuted.
+
+(* Open finding (repaired code): the theorems above are for schedules whose snapshot installs either complete or fail
+   before their first chunk ([wf_action]).  A snapshot install that fails later leaves the node without a stored term, and
+   after a restart the fence is forgotten: a NewTerm of an older term is accepted. *)
+Theorem c04_newterm_after_failed_snapshot_refuted :
+  exists l1 l2 t h,
+    n_term (state_after cfg_fixed init l1) = 6 /\ n_status (state_after cfg_fixed init l1) = Fenced /\
+    t < 6 /\ o_res (snd (step cfg_fixed (state_after cfg_fixed init (l1 ++ l2)) (NewTermReq t))) = RHead h.
+Proof. exact newterm_after_failed_snapshot_refuted. Qed.
+Print Assumptions c04_newterm_after_failed_snapshot_refuted.
 
 Theorem c04_stale_stream_old_refuted :
   exists l sid t, let n := state_after cfg_old init l in
